@@ -79,10 +79,11 @@ prop('C13', True, "Theorems: crash_always_enabled, crash_preserves, crash_keeps_
 prop('C04', True, "The lock operations are not modelled by hand: on every run the decision trees of get/release/is_locked/fail/is_failed of file_based_lock, file_keepalive_based_lock, redis_lock and dict_lock "
      "over shared-state primitives (exists, O_CREAT|O_EXCL, unlink, utime, stat; SETNX, DEL, GET, SET; dict entries) are extracted from the real classes (translator) and the kernel checks by evaluation that they are "
      "well typed (file_/keepalive_/redis_/dict_wellTyped). Generic theorems for well-typed programs, any number of clients, any interleaving of primitives, any history under the owner discipline: mutex, held_excludes, "
-     "get_truthful, race_one_winner (exactly one winner), failed_stays, solo_behaviour (failed => locked+failed+not acquirable; reacquire after release). Correspondence: every interleaving of small client sets on the "
+     "get_truthful, race_one_winner (exactly one winner), failed_stays, failed_window / failed_window_idle (between fail and release every completed is_locked/is_failed answers True and every get False, for operations of any number of "
+     "other clients overlapping in any way), solo_behaviour (failed => locked+failed+not acquirable; reacquire after release). Correspondence: every interleaving of small client sets on the "
      "real classes with gated primitives (real directory / redis stand-in) must give the results of the model interpreting the extracted trees; monitors look for two holders / no winner / non-sticky failure.",
      "Trusted: `sem` (POSIX O_EXCL atomicity, unlink/utime/stat; Redis single-command atomicity via an in-memory stand-in); owner discipline (only the holder releases/fails); the dict store is single-process (atomic ops). "
-     "failed_sticky for operations overlapping the fail/release instants is covered by correspondence only; independence of names is by construction of the model (one name) and checked dynamically.",
+     "operations that were already half-way when fail()/release() happened are covered by the exhaustive-interleaving correspondence only (the window theorem starts with the other clients idle or on course); independence of names is by construction of the model (one name) and checked dynamically.",
      "Lean 4 proof (generic invariant over extracted, kernel-type-checked lock programs) + exhaustive-interleaving correspondence on the real classes")
 
 prop('C19', True, "Lean model of the helper loop and of is_failed() on an integer clock. Theorems: live_never_failed (for every run length and every sequence of round overshoots <= Delta, if sigma + rounds*(period+Delta) < expiry "
